@@ -18,7 +18,7 @@ def gen_cases(rng, tier):
             if src is None:
                 continue
             cases.append({"target": x["name"], "src": src, "entry": "meta"})
-    return [recvprop.with_pairs(c) for c in cases]
+    return recvprop.all_with_pairs(cases)
 
 
 def run(tier, seed, replay=None):
